@@ -306,6 +306,58 @@ fn run<const K: usize>(case: u64, rng: &mut Rng, ev: &mut Ev) {
             }
         }
     }
+    // query battery on the final tree: every link accessor agrees with the model
+    for (i, mn) in &m.nodes {
+        let ok_basic = t.node_value(*i).ok() == Some(&mn.value)
+            && t[*i] == mn.value
+            && t.is_root(*i) == (*i == m.root)
+            && t.is_leaf(*i).ok() == Some(mn.children.iter().all(|c| c.is_none()))
+            && t.num_children(*i) == mn.children.iter().flatten().count();
+        if !ok_basic {
+            fail!("c12:query:node", format!("node_value / is_root / is_leaf / num_children of node {} disagree with the model", i));
+        }
+        match (t.parent(*i), m.label_in_parent(*i)) {
+            (Ok(e), Some((p, l))) => {
+                if e.source_idx != p || e.label != l || e.target_idx != *i || *e.source_value != m.nodes[&p].value || *e.target_value != mn.value {
+                    fail!("c12:query:parent", format!("parent({}) = ({} -{}-> {})", i, e.source_idx, e.label, e.target_idx));
+                }
+            }
+            (Err(_), None) => {}
+            _ => fail!("c12:query:parent", format!("parent({}) existence differs from the model", i)),
+        }
+        if let Some((p, l)) = m.label_in_parent(*i) {
+            match t.parent_mut(*i) {
+                Ok(e) if e.source_idx == p && e.label == l && e.target_idx == *i => {}
+                _ => fail!("c12:query:parent_mut", format!("parent_mut({})", i)),
+            }
+        }
+        for l in 0..K {
+            match (t.child(*i, l), mn.children[l]) {
+                (Ok(e), Some(c)) => {
+                    if e.target_idx != c || e.source_idx != *i || e.label != l || *e.target_value != m.nodes[&c].value {
+                        fail!("c12:query:child", format!("child({}, {}) = {}", i, l, e.target_idx));
+                    }
+                    match t.child_mut(*i, l) {
+                        Ok(em) if em.target_idx == c && em.source_idx == *i => {}
+                        _ => fail!("c12:query:child_mut", format!("child_mut({}, {})", i, l)),
+                    }
+                }
+                (Err(_), None) => {}
+                _ => fail!("c12:query:child", format!("child({}, {}) existence differs from the model", i, l)),
+            }
+        }
+        let kids: Vec<(usize, usize)> = t.children(*i).map(|e| (e.label, e.target_idx)).collect();
+        let exp: Vec<(usize, usize)> = mn.children.iter().enumerate().filter_map(|(l, c)| c.map(|c| (l, c))).collect();
+        if kids != exp {
+            fail!("c12:query:children", format!("children({}) = {:?} expected {:?}", i, kids, exp));
+        }
+    }
+    for d in &dead {
+        if !m.nodes.contains_key(d) && (t.node_value(*d).is_ok() || t.tree_node(*d).is_ok() || t.parent(*d).is_ok() || t.is_leaf(*d).is_ok()) {
+            fail!("c12:query:dead", format!("accessors succeed for removed index {}", d));
+        }
+    }
+    ev.inc("query_batteries");
     ev.evaluations += 1;
     if saw_err || saw_reuse {
         h.u(saw_err as u64);
